@@ -470,6 +470,46 @@ def rule_lifecycle(ctx: Ctx) -> None:
         ctx.ob("C01.LIFECYCLE", SM, lp, "remove_transitions: loop has no break/continue/return", not bad, detail="some transitions are left registered")
 
 
+
+def _finally_cleanup(call: ast.AST, stop: ast.AST, needed) -> List[str]:
+    """Names of the `needed` cleanup calls found in the finalbody of a try statement enclosing `call`."""
+    found: List[str] = []
+    cur = getattr(call, "_parent", None)
+    child = call
+    while cur is not None and cur is not stop:
+        if isinstance(cur, ast.Try) and any(child is x for x in cur.body) and cur.finalbody:
+            for c in [c for st in cur.finalbody for c in calls_in(st)]:
+                for name, pred in needed:
+                    if pred(c) and name not in found:
+                        found.append(name)
+        child, cur = cur, getattr(cur, "_parent", None)
+    return found
+
+
+def rule_lifecycle_exc(ctx: Ctx) -> None:
+    """The machine is released on the exceptional exits too: a refused check, or a step that fails while running, must
+    not leave the transitions registered and the state in the middle of the automaton -- every later check or run on the
+    same machine object would be refused ("for every history of check/run calls on one machine")."""
+    tree = ctx.tree
+    cc = tree.func(SM, f"{MACHINE}.check_conf")
+    trig = [c for c in calls_in(cc) if _is_self_call(c, "trigger")]
+    ctx.floor("C01.LIFECYCLE-EXC(trigger calls)", len(trig), 1)
+    need = [
+        ("remove_transitions(self._transitions_check)", lambda c: _is_self_call(c, "remove_transitions", "self._transitions_check")),
+        ("set_state('begin')", lambda c: _is_self_call(c, "set_state") and len(c.args) == 1 and isinstance(c.args[0], ast.Constant) and c.args[0].value == "begin"),
+    ]
+    for c in trig:
+        got = _finally_cleanup(c, cc, need)
+        ctx.ob("C01.LIFECYCLE-EXC", SM, c, f"check_conf: `{src(c)[:70]}` is covered by a finally that releases the machine ({', '.join(got) or 'none'})", len(got) == 2, expected="try: <trigger loop> finally: self.remove_transitions(self._transitions_check); self.set_state('begin')", detail="when a step is refused (sequencing error, or a parameter outside its domain) the exception leaves check_conf with the check transitions still registered and the state where the refusal happened: the next check of a perfectly legal pipeline on this machine is refused")
+    run = tree.func(INIT, "run")
+    m = run.args.args[0].arg
+    runs = [c for c in calls_in(run) if isinstance(c.func, ast.Attribute) and c.func.attr == "run" and canon(c.func.value) == m]
+    ctx.floor("C01.LIFECYCLE-EXC(run calls)", len(runs), 1)
+    need_r = [(f"{m}.run_exit()", lambda c: isinstance(c.func, ast.Attribute) and c.func.attr == "run_exit" and canon(c.func.value) == m)]
+    for c in runs:
+        got = _finally_cleanup(c, run, need_r)
+        ctx.ob("C01.LIFECYCLE-EXC", INIT, c, f"pandora.run: `{src(c)[:60]}` is covered by a finally that calls {m}.run_exit()", len(got) == 1, expected=f"try: <per-scale loops> finally: {m}.run_exit()", detail="a step that raises while running leaves the run transitions registered: the machine cannot be checked or run again")
+
 def rule_driver(ctx: Ctx) -> None:
     tree = ctx.tree
     run = tree.func(INIT, "run")
@@ -477,7 +517,10 @@ def rule_driver(ctx: Ctx) -> None:
     if len(pars) < 4:
         raise AnalysisError("pandora.run signature changed")
     m, il, ir, cfg = pars[:4]
-    body = stmts_of(run)
+    body = []
+    for st in stmts_of(run):
+        # the per-scale loop may sit in a try/finally that releases the machine
+        body.extend(st.body if isinstance(st, ast.Try) else [st])
     outer = [s for s in body if isinstance(s, ast.For)]
     ctx.floor("C01.DRIVER(outer loops)", len(outer), 1)
     ok_outer = len(outer) == 1 and canon(outer[0].iter) == f"range({m}.num_scales)"
@@ -536,7 +579,7 @@ def rule_driver(ctx: Ctx) -> None:
     # check_conf loop iterates the whole pipeline
     cc = tree.func(SM, f"{MACHINE}.check_conf")
     p_cfg = cc.args.args[1].arg
-    loops = [s for s in stmts_of(cc) if isinstance(s, ast.For)]
+    loops = [s for st in stmts_of(cc) for s in (st.body if isinstance(st, ast.Try) else [st]) if isinstance(s, ast.For)]
     its = {f"list({p_cfg}['pipeline'])", f"{p_cfg}['pipeline']", f"{p_cfg}['pipeline'].keys()", f"list({p_cfg}['pipeline'].keys())"}
     ok = len(loops) == 1 and canon(loops[0].iter) in its
     ctx.ob("C01.DRIVER", SM, loops[0] if loops else cc, f"check_conf: for {src(loops[0].target) if loops else '?'} in {src(loops[0].iter) if loops else '?'}", ok, detail="the check must trigger every configured step in order (a truncated or reordered iteration accepts illegal pipelines)")
@@ -659,7 +702,7 @@ def rule_trigger(ctx: Ctx) -> None:
     # check_conf
     cc = tree.func(SM, f"{MACHINE}.check_conf")
     p_cfg = cc.args.args[1].arg
-    loops = [s for s in stmts_of(cc) if isinstance(s, ast.For)]
+    loops = [s for st in stmts_of(cc) for s in (st.body if isinstance(st, ast.Try) else [st]) if isinstance(s, ast.For)]
     if not loops or not isinstance(loops[0].target, ast.Name):
         raise AnalysisError("check_conf: step loop not found")
     v = loops[0].target.id
@@ -813,6 +856,7 @@ def run(ctx: Ctx) -> None:
     rule_wiring(ctx)
     rule_once(ctx)
     rule_lifecycle(ctx)
+    rule_lifecycle_exc(ctx)
     rule_driver(ctx)
     rule_trigger(ctx)
     rule_errmap(ctx)
@@ -859,6 +903,9 @@ SPEC = PropSpec(
 
 _SM = SM
 MUTANTS = [
+    {"id": "run-exit-not-in-finally", "file": "pandora/__init__.py", "old": "    finally:\n        # Stop the machine which returns to its initial state, also when a step fails\n        pandora_machine.run_exit()\n", "new": "    except MachineError:\n        raise\n    # Stop the machine which returns to its initial state\n    pandora_machine.run_exit()\n"},
+    {"id": "check-cleanup-only-on-success", "file": "pandora/state_machine.py", "old": "        finally:\n            # Remove transitions and come back to the initial state, also when a step is refused\n            self.remove_transitions(self._transitions_check)\n            self.set_state(\"begin\")\n", "new": "        except DictCheckerError:\n            raise\n        # Remove transitions and come back to the initial state\n        self.remove_transitions(self._transitions_check)\n        self.set_state(\"begin\")\n"},
+    {"id": "matching-cost-callback-reads-bare-family-key", "file": "pandora/state_machine.py", "old": '            cfg[input_step]["matching_cost_method"],\n            matching_cost_.cfg["band"],\n        )\n        self.check_band_pipeline(\n            self.right_img', "new": '            cfg["matching_cost"]["matching_cost_method"],\n            matching_cost_.cfg["band"],\n        )\n        self.check_band_pipeline(\n            self.right_img'},
     {"id": "validation-looked-up-by-bare-name", "file": "pandora/state_machine.py", "old": '        for input_step in cfg["pipeline"]:\n            if input_step.split(".")[0] == "validation":\n                self.right_disp_map = cfg["pipeline"][input_step]["validation_method"]\n', "new": '        if "validation" in cfg["pipeline"]:\n            self.right_disp_map = cfg["pipeline"]["validation"]["validation_method"]\n'},
     {"id": "run-prepare-resets-right-disp-map", "file": "pandora/state_machine.py", "old": '                self.right_disp_map = cfg["pipeline"][input_step]["validation_method"]\n', "new": '                self.right_disp_map = cfg["pipeline"][input_step]["validation_method"]\n            else:\n                self.right_disp_map = None\n'},
     {"id": "check_filter-from-cost_volume", "file": _SM, "old": '"trigger": "check_filter",\n            "source": "disp_map",', "new": '"trigger": "check_filter",\n            "source": "cost_volume",'},
@@ -868,8 +915,8 @@ MUTANTS = [
     {"id": "delete-remove_transitions-check", "file": _SM, "old": "        self.remove_transitions(self._transitions_check)\n", "new": ""},
     {"id": "delete-set_state-run_exit", "file": _SM, "old": '        self.remove_transitions(self._transitions_run)\n        self.set_state("begin")', "new": "        self.remove_transitions(self._transitions_run)"},
     {"id": "split-last", "file": _SM, "old": 'step_to_trigger = input_step.split(".")[0]', "new": 'step_to_trigger = input_step.split(".")[-1]'},
-    {"id": "drop-AttributeError", "file": _SM, "old": '            except (MachineError, KeyError, AttributeError):\n                raise MachineError', "new": '            except (MachineError, KeyError):\n                raise MachineError'},
-    {"id": "remove-break", "file": "pandora/__init__.py", "old": '            if pandora_machine.state == "begin":\n                break\n', "new": ""},
+    {"id": "drop-AttributeError", "file": _SM, "old": "                except (MachineError, KeyError, AttributeError):\n", "new": "                except (MachineError, KeyError):\n"},
+    {"id": "remove-break", "file": "pandora/__init__.py", "old": '                if pandora_machine.state == "begin":\n                    break\n', "new": ""},
     {"id": "current_scale-eq-1", "file": _SM, "old": "if self.current_scale == 0:", "new": "if self.current_scale == 1:"},
     {"id": "skip-first-step", "file": "pandora/__init__.py", "old": 'for elem in list(cfg["pipeline"]):', "new": 'for elem in list(cfg["pipeline"])[1:]:'},
     {"id": "swallow-in-run", "file": _SM, "old": 'logging.error("A problem occurs during Pandora running %s  step. Be sure of your sequencement", input_step)\n            raise', "new": 'logging.error("A problem occurs during Pandora running %s  step. Be sure of your sequencement", input_step)'},
@@ -881,9 +928,9 @@ MUTANTS = [
     {"id": "check-iterates-sorted", "file": _SM, "old": 'for input_step in list(cfg["pipeline"]):', "new": 'for input_step in sorted(cfg["pipeline"]):'},
     # behaviour-preserving variants: must stay silent
     {"id": "eq-reorder-rows", "kind": "equiv", "edits": [(_SM, '        {\n            "trigger": "aggregation",\n            "source": "cost_volume",\n            "dest": "cost_volume",\n            "after": "aggregation_run",\n        },\n', ""), (_SM, '    _transitions_check = [', '    _transitions_check__ = [', 1), (_SM, '            "after": "cost_volume_confidence_run",\n        },\n    ]', '            "after": "cost_volume_confidence_run",\n        },\n        {\n            "trigger": "aggregation",\n            "source": "cost_volume",\n            "dest": "cost_volume",\n            "after": "aggregation_run",\n        },\n    ]'), (_SM, '    _transitions_check__ = [', '    _transitions_check = [')]},
-    {"id": "eq-merge-trigger-branches", "kind": "equiv", "file": _SM, "old": '                if len(input_step.split(".")) != 1:\n                    self.trigger(check_input.split(".")[0], cfg["pipeline"], input_step)\n                else:\n                    self.trigger(check_input, cfg["pipeline"], input_step)\n', "new": '                self.trigger(check_input.split(".")[0], cfg["pipeline"], input_step)\n'},
+    {"id": "eq-merge-trigger-branches", "kind": "equiv", "file": _SM, "old": '                    if len(input_step.split(".")) != 1:\n                        self.trigger(check_input.split(".")[0], cfg["pipeline"], input_step)\n                    else:\n                        self.trigger(check_input, cfg["pipeline"], input_step)\n', "new": '                    self.trigger(check_input.split(".")[0], cfg["pipeline"], input_step)\n'},
     {"id": "eq-iterate-dict-directly", "kind": "equiv", "file": "pandora/__init__.py", "old": 'for elem in list(cfg["pipeline"]):', "new": 'for elem in cfg["pipeline"]:'},
-    {"id": "eq-swap-set_state-remove", "kind": "equiv", "file": _SM, "old": '        self.remove_transitions(self._transitions_check)\n\n        # Coming back to the initial state\n        self.set_state("begin")\n', "new": '        self.set_state("begin")\n        self.remove_transitions(self._transitions_check)\n'},
+    {"id": "eq-swap-set_state-remove", "kind": "equiv", "file": _SM, "old": '            self.remove_transitions(self._transitions_check)\n            self.set_state("begin")\n', "new": '            self.set_state("begin")\n            self.remove_transitions(self._transitions_check)\n'},
     {"id": "eq-helper-reset", "kind": "equiv", "edits": [(_SM, '        self.remove_transitions(self._transitions_run)\n        self.set_state("begin")\n', '        self._reset_machine()\n\n    def _reset_machine(self) -> None:\n        self.remove_transitions(self._transitions_run)\n        self.set_state("begin")\n')]},
     {"id": "eq-return-bool-expr", "kind": "equiv", "file": _SM, "old": "        if self.current_scale == 0:\n            return False\n        return True\n", "new": "        return self.current_scale != 0\n"},
     {"id": "eq-log-between-passes", "kind": "equiv", "file": _SM, "old": '        refinement_.subpixel_refinement(self.left_cv, self.left_disparity)\n', "new": '        refinement_.subpixel_refinement(self.left_cv, self.left_disparity)\n        logging.info("left done")\n'},
